@@ -429,6 +429,12 @@ func (ff *FuncFacts) Must(T *ssa.BasicBlock) []Atom {
 // condAtomsX is condAtoms plus the ok()/err() aliases for error results of calls.
 func (ff *FuncFacts) condAtomsX(c ssa.Value, pol bool) []string {
 	out := ff.condAtoms(c, pol)
+	if call, ok := c.(*ssa.Call); ok && pol {
+		// a single-use predicate helper that returned true: what it established holds here
+		if b, isB := call.Type().Underlying().(*types.Basic); isB && b.Kind() == types.Bool {
+			out = append(out, ff.importHelperFacts(call)...)
+		}
+	}
 	if b, ok := c.(*ssa.BinOp); ok && (b.Op == token.EQL || b.Op == token.NEQ) && isNilConst(b.Y) && isErrorType(b.X.Type()) {
 		call := ff.callTerm(b.X)
 		if call == "" {
@@ -739,7 +745,7 @@ func (ff *FuncFacts) classify(v ssa.Value, b *ssa.BasicBlock, ret *ssa.Return, d
 				}
 				return exs
 			}
-			return mk(ExitTail, []string{"ok(" + call + ")"}, desc)
+			return mk(ExitTail, append([]string{"ok(" + call + ")"}, ff.importHelperFacts(v)...), desc)
 		}
 		return mk(ExitUnknown, nil, desc)
 	}
